@@ -91,9 +91,16 @@ def main():
         dst = os.path.join(VERIF, "benign", name)
         os.makedirs(dst, exist_ok=True)
         for fn in ("patch.diff", "notes.md"):
-            if os.path.exists(os.path.join(src, fn)):
+            if os.path.exists(os.path.join(src, fn)) and os.path.abspath(src) != os.path.abspath(dst):
                 shutil.copy(os.path.join(src, fn), os.path.join(dst, fn))
-        json.dump(meta, open(os.path.join(dst, "meta.json"), "w"), indent=1)
+        prev_path = os.path.join(dst, "meta.json")
+        if skip_confirm and os.path.exists(prev_path):
+            prev = json.load(open(prev_path))
+            meta["ran"] = prev.get("ran", []) + [{"step": "re-run of the checks after the machinery was corrected"}]
+            meta["builds_and_passes_tests"] = prev.get("builds_and_passes_tests")
+            meta["first_checks"] = prev.get("first_checks", prev.get("checks"))
+            meta["first_alarm"] = prev.get("first_alarm", prev.get("alarm"))
+        json.dump(meta, open(prev_path, "w"), indent=1)
         print(json.dumps({k: meta[k] for k in ("name", "builds_and_passes_tests", "alarm", "checks") if k in meta}, indent=1))
         if "problem" in meta:
             print("PROBLEM:", meta["problem"])
